@@ -153,6 +153,18 @@ func (p Pegnet) CheckHardForks(tx QueryAble) error {
 		return err
 	}
 
+	// Heights above the highest tracked one were synced without version tracking: a build
+	// predating it was run on this database after a tracking one. They leave no row behind, and
+	// the fork heights they crossed may well have (adequate) rows of their own, so the back-fill
+	// above does not show them. Record the fact at the synced height; the checks below then see
+	// a -1 at or above every fork these blocks are at or above of.
+	if bs != nil && top != 0 && bs.Synced > top {
+		if err := p.markHeightSyncedVersion(tx, bs.Synced, -1); err != nil {
+			return err
+		}
+		top = bs.Synced
+	}
+
 	for _, event := range Hardforks {
 		// If the event is not synced past, then we do not need to check
 		if event.ActivationHeight <= top {
